@@ -62,7 +62,9 @@ def dest_text(link, written, slugs):
     path = "/".join(written)
     if sp == "abs":
         path = "/" + path
-    if sp not in ("noext", "file", "path"):
+    if sp == "rst":
+        path += ".rst"
+    elif sp not in ("noext", "file", "path"):
         path += ".md"
     if link["anchor"] == 99:
         # a fragment that is no heading slug of the target: an unknown word, or the project-wide label (a label is not a
@@ -119,7 +121,8 @@ def build_project(job):
             m = re.match(r"L(\d+)x ", ln)
             if m:
                 line_of[int(m.group(1))] = ln_no
-    files["/".join(filedir + ["f.txt"])] = "extra file\n"
+    extra = job[8] if len(job) > 8 else "f.txt"
+    files["/".join(filedir + [extra])] = "extra file\n"
     files["index.md"] = "# Index\n\n```{toctree}\n" + "\n".join(pkey(p) for p in proj) + "\n```\n"
     # (projects with more than five documents are read by two processes every other time: what resolution needs must
     # survive the merge of the workers' environments)
@@ -239,15 +242,18 @@ def written_of(src, link, filedir):
         return [".."] * (len(d) - c) + t[c:]
     sp = link["sp"]
     d = src[:-1]
-    if sp in ("rel", "noext", "project"):
+    if sp in ("rel", "noext", "project", "rst"):
         return rel(d, link["to"])
     if sp == "dot":
         return ["."] + rel(d, link["to"])
     if sp == "abs":
         return list(link["to"])
     if sp in ("file", "path"):
-        return rel(d, filedir + ["f.txt"])
+        return rel(d, filedir + [EXTRA_V])
     return []
+
+
+EXTRA_V = "LICENSE"      # the random projects' non-document file has no extension
 
 
 def v_leg(ctx, rnd, quick):
@@ -279,14 +285,14 @@ def v_leg(ctx, rnd, quick):
             per_src = {}
             for n in range(1, 41):
                 src = rnd.choice(proj)
-                sp = rnd.choice(["rel", "dot", "abs", "noext", "project", "label", "file", "path"])
+                sp = rnd.choice(["rel", "dot", "abs", "noext", "project", "label", "file", "path", "rst"])
                 to = rnd.choice(universe) if sp not in ("label", "file", "path") else src
                 nh = len(headings[pkey(to)])
-                anchor = 0 if sp in ("label", "file", "path", "noext") else rnd.choice([0, 99] + list(range(1, nh + 1)))
+                anchor = 0 if sp in ("label", "file", "path", "noext", "rst") else rnd.choice([0, 99] + list(range(1, nh + 1)))
                 link = {"to": to, "sp": sp, "anchor": anchor, "text": rnd.choice(["explicit", "empty"])}
                 per_src.setdefault(pkey(src), []).append((n, link, written_of(src, link, filedir)))
                 index[(pid, n)] = (proj, src, link)
-            jobs.append((str(ctx.wd / "docs"), 1000 * batch + pid, proj, per_src, headings, slugs, labeldoc, filedir))
+            jobs.append((str(ctx.wd / "docs"), 1000 * batch + pid, proj, per_src, headings, slugs, labeldoc, filedir, EXTRA_V))
         outs = pmap(build_project, jobs, procs=3, chunksize=1)
         traces, keep = [], {}
         for jn, (job, o) in enumerate(zip(jobs, outs)):
